@@ -295,16 +295,32 @@ def hist_C16(tier):
         for h in range(n):
             ids = sorted({rng.choice([rng.randrange(0, 30), rng.randrange(0, 2000), rng.randrange(2**64)]) for _ in range(rng.randint(0, 9))})
             ops = gen_coll_history(rng, path, rng.randint(5, 40), reopen=0.03, ids=ids or [1])
-            ops = [o for o in ops if o['op'] != 26]
             m = len(ids)
             fk = rng.choice([0, 1, 2, 3])
             fa = rng.randint(1, 3)
             fb = rng.randrange(fa)
+
+            def grid(span):
+                for off in range(0, span):
+                    for lim in range(0, span):
+                        ops.append({'op': 26, 'fk': fk, 'fa': fa, 'fb': fb, 'off': off, 'lim': lim})
             # exhaustive (offset, limit) over {0..m+2}^2
-            for off in range(0, m + 3):
-                for lim in range(0, m + 3):
-                    ops.append({'op': 26, 'fk': fk, 'fa': fa, 'fb': fb, 'off': off, 'lim': lim})
+            grid(m + 3)
             ops.append({'op': 26, 'fk': 0, 'fa': 1, 'fb': 0, 'off': 10**6, 'lim': 10**6})
+            # listings interleaved with changes of the id set: the same number of removals and new ids between two
+            # listings (a listing must never depend on an earlier one), metadata updates, then pages again
+            q, dim = ops[0]['q'], ops[0]['dim']
+            ops.append({'op': 30, 'mode': 1})        # the generated history may end on a read-only mapping
+            for rnd in range(rng.randint(1, 3)):
+                k = rng.randint(1, 3)
+                for x in rng.sample(ids or [1], min(k, len(ids or [1]))):
+                    ops.append({'op': 22, 'id': x})
+                for j in range(k):
+                    ops.append({'op': 20, 'id': rng.randrange(3000, 3100), 'vec': P(data=random_vec_bytes(rng, q, dim)), 'meta': P(seed=rng.randrange(10**6), n=rng.choice([0, 3, 40]))})
+                if ids and rng.random() < 0.5:
+                    ops.append({'op': 21, 'id': rng.choice(ids), 'meta': P(seed=rng.randrange(10**6), n=rng.choice([1, 7]))})
+                ops.append({'op': 26, 'fk': 0, 'fa': 1, 'fb': 0, 'off': 0, 'lim': 0})
+                grid(min(m + 3, 5))
             yield ops
     return gen
 
